@@ -78,12 +78,74 @@ CHECKS["C17"] = dict(
     tech="Coq proof over a purely functional model + static source scan + history/thread differential runs",
     ref="3 C17")
 
+PROG = (" Tie for the program level: the whole pipeline is modelled in Gallina at character level (Model/Lines, Parse, Display, "
+        "Passes - grammar, line loop, directives, macro expansion, passes 0-2, capacity check) and compared with builder::build_str on "
+        "every generated text of every program-level check (observations: images, sizes, messages / first 'line: N' of the error / "
+        "panic-crash-timeout in isolated workers); opcode, mnemonic, directive, precedence and device tables are regenerated from /repo.")
+CHECKS["C06"] = dict(
+    text="Theorem C06_data (Props/C06.v): for every data directive and every operand list (unbounded, induction) the bytes the model emits "
+         "are exactly the specification's (Spec/DataSpec.v: operands in order, 1/2/4/8-byte little-endian two's complement, strings as "
+         "bytes for .db only), failing exactly when a value does not fit [-2^(w-1), 2^w-1], has no value, or a string is in .dw/.dd/.dq; "
+         "C06_flash_padding / eeprom_no_padding / wrong_segment / reserve_eeprom for the segment rules." + PROG,
+    note=BASE + " Search oracle: independent reference encoder in vlib/c06.py.",
+    tech="Coq proof (induction on operand lists, width lemmas by lia) + differential correspondence + reference-encoder oracle", ref="3 C06")
+CHECKS["C10"] = dict(
+    text="Theorems C10_* (Props/C10.v), all unbounded: lookups of labels/.equ/.set/.def depend on a name only through its lower-case form "
+         "(hence every reference evaluates the same in any case); an unbound name is an error value, never a default; a duplicate label "
+         "fails at the second definition; a label entered by pass 1 has the position of the following item and persists (fold invariant) "
+         "- pass 2 evaluates references only afterwards, so forward references resolve; after .set every reference sees exactly that "
+         "value (first definition and re-assignment); .def/.undef scope; an alias operand is the register operand for the encoder." + PROG,
+    note=BASE + " Domain: names unique across the four kinds modulo case (cross-kind clashes resolve by a fixed priority without error; "
+         "the property demands failure for duplicate labels only). Search oracle: reference resolver in vlib/c10.py + deletion/duplication mutants.",
+    tech="Coq proof (fold invariants, case lemmas) + differential correspondence + reference-resolver oracle", ref="3 C10")
+CHECKS["C12"] = dict(
+    text="Theorem C12_limits (Props/C12.v): for every program, the build succeeds iff passes 0-2 succeed and flash image <= 2*flash words, "
+         "EEPROM image <= EEPROM bytes, data extent <= RAM bytes of the selected (or default) device, and a successful build reports "
+         "exactly that device's sizes and the RAM extent; C12_pass1_capacity; C12_device_once (unknown / second device is an error); "
+         "C12_parts: every shipped includes/*def.inc whose device is in the table declares the figures the table enforces (both "
+         "regenerated from /repo on every run, compared by vm_compute)." + PROG,
+    note=BASE + " Search: every device row x 3 memories x {cap-1, cap, cap+1} reached by .org, data, code, reservation.",
+    tech="Coq proof (characterisation of the capacity check) + regenerated device/part tables + exhaustive boundary runs", ref="3 C12")
+CHECKS["C13"] = dict(
+    text="Theorem C13_gate (Props/C13.v): for EVERY set of feature flags (all 2^16, not only the 54 rows), every operation and operand "
+         "list, the gate of pass 2 passes the instruction iff no flag the device carries removes that form according to the flag "
+         "documentation (Spec/GateSpec.v); C13_same_code: the device enters the encoder only through the reduced-core flag and only for "
+         "lds/sts - every other instruction encodes identically under any device; C13_pass2_rejects." + PROG,
+    note=BASE + " Search: 54 devices x 111 instruction forms exhaustively.",
+    tech="Coq proof (case analysis over operations and flags) + regenerated device table + exhaustive device x form runs", ref="3 C13")
+CHECKS["C14"] = dict(
+    text="PARTIAL. Proved (Props/C14.v, unbounded): letter case of mnemonics, function names, index registers, register prefix (symbol "
+         "references: C10_case); blank lines and comment-only lines with ANY comment text parse to the empty line and the line loop "
+         "passes over it without touching the state; CR LF and LF split into the same lines. Not proved: blanks around operands, commas "
+         "and operators, trailing comments after a statement, radix of numbers - these rest on the metamorphic search (every token of "
+         "structured programs respelled independently, images and sizes compared) and on the correspondence." + PROG,
+    note=BASE + " Directive-name case, 0X/0B prefixes and label indentation are not among the property's listed rewrites.",
+    tech="Coq proof for case / blank / comment / CRLF invariance + metamorphic respelling search + differential correspondence", ref="3 C14")
+CHECKS["C15"] = dict(
+    text="Theorems C15_pass2 / C15_pass1 / C15_syntax / C15_directive (Props/C15.v): errors are structured in the model (Err (Some n) = the "
+         "text names line n); for every item, state and program, every error raised in pass 2 (operand kind/range/count, undefined symbol "
+         "in instruction/data/.set, value range, device gate, .undef, .def), pass 1 (duplicate label, wrong segment, address space), the "
+         "parse loop (syntax) and directive handling (.if/.org evaluation, unknown directive/device, .error) names the line of the "
+         "offending statement - sole stated exception: .byte's 'too many arguments'. C15_message: .message/.warning append exactly their "
+         "text with their own line number and change nothing else." + PROG,
+    note=BASE + " Search: 19 fault kinds injected one at a time into valid programs; message order/numbering incl. conditional arms. "
+         "Messages inside macro bodies are outside the property's quantifier.",
+    tech="Coq proof (exhaustive case analysis of every error site) + single-fault injection search + differential correspondence", ref="3 C15")
+CHECKS["C16"] = dict(
+    text="PARTIAL BY NATURE. The model keeps every partial operation of the code as an explicit Panic outcome; theorems (Props/C16.v, all "
+         "inputs): expression evaluation, the encoder (operands fetched only after the count check), directive handling and pass 1 never "
+         "panic; cyclic symbols / recursive macros end in an error at depth 64; all model functions are total. Not expressible in Gallina: "
+         "native stack depth, time, allocator - exercised by ./check C16: every case in an isolated worker (3 GB limit, watchdog), "
+         "bounded-exhaustive single-line programs (153 heads x 0-2 operands from a 43-entry hostile dictionary), structural extremes, "
+         "mutated programs; three deep-nesting inputs are open known findings." + PROG,
+    note=BASE + " The remaining Panic sites of the model are the 32-bit additions of pass 2, unreachable after pass 1's check (not proved).",
+    tech="Coq proof of panic-freedom for evaluator/encoder/directives/pass 1 + isolated-process bounded-exhaustive and mutation runs", ref="3 C16")
+
 NOT_APPLICABLE = {}
 IN_PROGRESS = ("machinery built and green on the current tree (./check %s: model-vs-implementation correspondence + oracle search + "
                "kernel-checked examples); not claimed until its unbounded theorem is in Props/%s.v")
-for _p in ("C02", "C06", "C08", "C09", "C10", "C12", "C13", "C14", "C15", "C16"):
+for _p in ("C02", "C08", "C09"):
     NOT_APPLICABLE[_p] = IN_PROGRESS % (_p, _p)
-
 PENDING = ("claimed in DESIGN.md, machinery not built yet in this commit; listed here so that nothing unbuilt is claimed "
            "(technique applies - see DESIGN.md section 3)")
 
